@@ -222,6 +222,9 @@ class EmitterMixin:
                 guardval = maker(node_or_id)
                 if guardval is not None:
                     local_guards[id(spec)] = guardval
+        if self._is_guard_exempt_context:
+            # an emission inside the copy that runs while a guard is active: only for the guard-exempt handlers
+            kwargs["exempt_handlers_only"] = fast.NameConstant(True)
         if len(local_guards) == 0:
             kwargs["guards_by_handler_spec_id"] = fast.NameConstant(None)
         else:
